@@ -269,17 +269,28 @@ def runner_check(ctx, test_exe, driver, rng, thorough, prop, clause):
     for ci in range(600 if thorough else 120):
         kind = rng.choice(["shared", "shared", "default"])
         cl = ["rcfg " + kind]
-        live, nxt = [], 1
+        live, nxt, nested, unborn = [], 1, set(), []
         for _ in range(rng.randrange(3, 16)):
             r = rng.random()
             if r < 0.35 or not live:
                 cl.append("reg %d" % nxt)
                 live.append(nxt)
                 nxt += 1
-            elif r < 0.55:
+            elif r < 0.5:
                 cl.append("fin %d" % rng.choice(live))
+            elif r < 0.62:
+                # a live function registers a new one during its next call (possibly the tick in which another one finishes)
+                k = rng.choice(live)
+                if k not in nested:
+                    cl.append("nest %d %d" % (k, nxt))
+                    nested.add(k)
+                    unborn.append(nxt)      # exists only after the tick in which k is called
+                    nxt += 1
             else:
                 cl.append("tick")
+                nested.clear()
+                live += unborn
+                unborn = []
         cl.append("tick")
         rcases.append(cl)
         for l in cl:
